@@ -527,6 +527,8 @@ end Ex
       the whole trace is `src_datagrams_fit`);
     * "panics only on an invalid channel id" as an equivalence for a single call from an arbitrary reachable state
       (`src_never_panics` covers whole traces with configured channel ids; `Ex` shows the panic for an unknown id).
+  DONE LATER (round 20), elsewhere: C08 → Props/SrcPropsConnTraceC08.lean; C15 / C15A and C14 through the generated decoder →
+  Props/SrcPropsConnTraceC15.lean; whole-trace status causes and the panic equivalence → Props/SrcPropsConnTraceMore.lean.
 -/
 
 end RenetVerif.SrcPropsConnTrace
